@@ -702,6 +702,12 @@ impl AsyncClient {
         write_message_async(&mut *writer, msg).await?;
         writer.flush().await?;
         guard.armed = false;
+        #[cfg(feature = "verif-hooks")]
+        {
+            drop(guard);
+            drop(writer);
+            crate::verif::probe("client.written");
+        }
         Ok(())
     }
 
